@@ -59,6 +59,22 @@ def run(out: Outcome) -> None:
         off, sc = conditioning(rng)
         sigma = rng.choice([0.5, 1.0, 2.5]) * sc
         X, Y = sample(rng, n, dim, off, sc), sample(rng, m, dim, off, sc)
+        if _ % 3 == 2:
+            # heavily TIED samples (binary / categorical-coded / integer features; periodic patterns that put equal values on chunk boundaries): distinct observations
+            # with equal values are still distinct pairs of the estimator
+            sigma = rng.choice([0.5, 1.0, 2.5])
+            alphabet = rng.choice([[0.0, 1.0], [0.0, 1.0, 2.0], [1.5, -2.0, 7.0, 7.5]])
+            def tied(k):
+                if rng.random() < 0.4:
+                    period = rng.randint(1, 3)
+                    vals = [[alphabet[(i % period) % len(alphabet)]] * max(1, dim) for i in range(k)]
+                else:
+                    vals = [[rng.choice(alphabet) for _ in range(max(1, dim))] for i in range(k)]
+                A = np.array(vals, dtype=float)
+                return A.reshape(-1) if dim == 0 else A
+            X, Y = tied(n), tied(m)
+            off, sc = 0.0, 1.0
+            out.count("tied_sample_pairs")
         ref = unbiased(X, Y, sigma)
         kern = partial(rbf_kernel, sigma=sigma)
         for cs in [None] + list(range(1, max(n, m) + 3)):
